@@ -156,6 +156,15 @@ impl Monitor for C14 {
                 }
                 // the constants a pool is charged by always satisfy the published validity rules (periods ordered, factors below
                 // their denominators, group size dividing the tick spacing, accumulator x group size within 32 bits)
+                // ... and are changed only by a call that names the pool they belong to (the constants of pool B are not
+                // reachable through a call naming pool A, whoever signs it)
+                if post_o.c != pre_o.c {
+                    let named = ev.tx.ixs.iter().filter_map(wpix::decode).any(|c| c.name() == "set_adaptive_fee_constants" && c.a("whirlpool") == post_o.whirlpool && c.a("oracle") == m.pubkey);
+                    if !named {
+                        out.push(viol("constants_changed_through_another_pool", ev.idx, format!("after {} the constants of oracle {} (pool {}) changed although no call in the transaction names that pool with that oracle", ev.tag, m.pubkey, post_o.whirlpool)));
+                        return out;
+                    }
+                }
                 if post_o.c != pre_o.c {
                     if let Some(sp) = ev.post.data(&post_o.whirlpool).and_then(decode::pool).map(|p| p.tick_spacing) {
                         if !crate::mon::c19::constants_valid(&post_o.c, sp) {
